@@ -110,9 +110,72 @@ func shortReadClassesDepth(fn *ssa.Function, depth int) []map[string]string {
 				}
 			}
 		}
+		// classification delegated to an error-mapping helper: `return …, mapErr(err)` where mapErr
+		// turns selected sentinels into another one and passes the rest through
+		for _, hc := range Calls(fn, false, func(cc *ssa.CallCommon) bool { return true }) {
+			h := StaticFn(hc.Common())
+			if h == nil || h.Blocks == nil || h == fn || FuncPkgPath(h) != FuncPkgPath(fn) || len(h.Params) != 1 || !isErrorParam(h.Params[0]) {
+				continue
+			}
+			if !fs[hc.Common().Args[0]] {
+				continue
+			}
+			for k, v := range errorMapOf(h) {
+				if _, done := m[k]; !done {
+					m[k] = v
+				}
+			}
+		}
 		out = append(out, m)
 	}
 	return out
+}
+
+func isErrorParam(p *ssa.Parameter) bool {
+	return p.Type().String() == "error"
+}
+
+// errorMapOf: for a helper func(err error) error, the sentinels it rewrites:
+// errors.Is(err, X) true edge returns sentinel S  ⇒  X → S.
+func errorMapOf(h *ssa.Function) map[string]string {
+	m := map[string]string{}
+	for _, is := range Calls(h, false, Named("errors.Is")) {
+		args := is.Common().Args
+		if len(args) != 2 || args[0] != ssa.Value(h.Params[0]) {
+			continue
+		}
+		u, ok := args[1].(*ssa.UnOp)
+		if !ok {
+			continue
+		}
+		g, ok := u.X.(*ssa.Global)
+		if !ok {
+			continue
+		}
+		for _, ref := range *is.Value().Referrers() {
+			ifi, ok := ref.(*ssa.If)
+			if !ok {
+				continue
+			}
+			b := ifi.Block().Succs[0]
+			for steps := 0; steps < 4 && b != nil; steps++ {
+				if r, ok := b.Instrs[len(b.Instrs)-1].(*ssa.Return); ok {
+					if ru, ok := RetVal(r, 0).(*ssa.UnOp); ok {
+						if rg, ok := ru.X.(*ssa.Global); ok {
+							m[g.Name()] = rg.Name()
+						}
+					}
+					break
+				}
+				if _, ok := b.Instrs[len(b.Instrs)-1].(*ssa.Jump); ok {
+					b = b.Succs[0]
+				} else {
+					break
+				}
+			}
+		}
+	}
+	return m
 }
 
 func C13(c *Ctx) {
